@@ -58,6 +58,19 @@ func newBridgeRig(free bool, seed int64) *bridgeRig {
 	return r
 }
 
+// unreal: the behaviour cannot be realised; end the bridge's I/O first so that everything winds down at once.
+func (r *bridgeRig) unreal(i int, format string, a ...any) *fw.Trace {
+	r.src.injectEOF()
+	r.dst.injectEOF()
+	r.src.Close()
+	r.dst.Close()
+	t := r.base.unreal(i, format, a...)
+	setHook(nil)
+	r.b.Close()
+	r.cancel()
+	return t
+}
+
 func (r *bridgeRig) moved() int64 { return r.src.written.Load() + r.dst.written.Load() }
 
 func (r *bridgeRig) name(p string) string {
@@ -102,6 +115,62 @@ func (r *bridgeRig) waitCopiers() bool {
 		time.Sleep(20 * time.Microsecond)
 	}
 	return true
+}
+
+var bigAlt int
+
+// deliverN feeds count chunks of size bytes to a copier and waits until all came out at the other end.
+func (r *bridgeRig) deliverN(p string, size, count int) bool {
+	in, out := r.src, r.dst
+	if p == "cpB" {
+		in, out = r.dst, r.src
+	}
+	if in.isClosed() || out.isClosed() {
+		return false
+	}
+	want := out.written.Load() + int64(size)*int64(count)
+	buf := make([]byte, size)
+	for i := 0; i < count; i++ {
+		in.inject(buf)
+	}
+	deadline := time.Now().Add(3 * time.Second)
+	for out.written.Load() < want {
+		if time.Now().After(deadline) || in.isClosed() || out.isClosed() {
+			return false
+		}
+		time.Sleep(50 * time.Microsecond)
+	}
+	return true
+}
+
+// flowUntilExit keeps small chunks flowing through copier p until it stops consuming them (it left its
+// read loop): at most a little more than ContextCheckInterval reads.
+func (r *bridgeRig) flowUntilExit(p string) bool {
+	in, out := r.src, r.dst
+	if p == "cpB" {
+		in, out = r.dst, r.src
+	}
+	chunk := []byte{1, 2, 3}
+	for batch := 0; batch < 24; batch++ {
+		if in.isClosed() || out.isClosed() {
+			return true // it closed the bridge on its way out
+		}
+		want := out.written.Load() + 500*int64(len(chunk))
+		for i := 0; i < 500; i++ {
+			in.inject(chunk)
+		}
+		t0 := time.Now()
+		for out.written.Load() < want {
+			if in.isClosed() || out.isClosed() {
+				return true
+			}
+			if time.Since(t0) > 300*time.Millisecond {
+				return in.blockedReaders() == 0 // stopped reading with input pending: it has left the loop
+			}
+			time.Sleep(20 * time.Microsecond)
+		}
+	}
+	return false
 }
 
 // deliver feeds one chunk to a copier and waits until it came out at the other end.
@@ -152,7 +221,56 @@ func (r *bridgeRig) finish() *fw.Trace {
 	return r.trace("bridge", true)
 }
 
+// driveBridgeScript: driver-made bridge cases that do not depend on what the sampling keeps.
+//
+//	flow-ctx   the parent context (server / session manager) is cancelled while small packets keep flowing both ways:
+//	           the copiers leave through their periodic ctx.Done() check with a pending batch
+//	big-small  more than 1 MiB per direction in small chunks (batch threshold path), then an explicit Close
+//	big-large  the same in 32 KiB chunks, then the source side ends
+func driveBridgeScript(beh behaviour, seed int64) *fw.Trace {
+	r := newBridgeRig(true, seed)
+	r.startLifecycle()
+	fail := func(note string) *fw.Trace {
+		r.src.Close()
+		r.dst.Close()
+		r.s.Drain(5 * time.Second)
+		r.cancel()
+		return &fw.Trace{Status: fw.Inconclusive, Note: note}
+	}
+	if !r.waitCopiers() {
+		return fail("copiers did not start in time")
+	}
+	switch beh.Op {
+	case "flow-ctx":
+		if !r.deliver("cpA") || !r.deliver("cpB") {
+			return fail("no forwarding")
+		}
+		r.cancel()
+		okA := r.flowUntilExit("cpA")
+		okB := r.flowUntilExit("cpB")
+		if !okA && !okB {
+			return fail("no copier left its loop after the cancellation")
+		}
+	case "big-small":
+		if !r.deliverN("cpA", 1000, 1300) || !r.deliverN("cpB", 700, 1700) {
+			return fail("no forwarding")
+		}
+		r.rec.add(fw.Event{"ev": "CloseCall", "p": "x1"})
+		r.rec.guard("Close", func() { r.b.Close() })
+		r.rec.add(fw.Event{"ev": "CloseRet", "p": "x1"})
+	case "big-large":
+		if !r.deliverN("cpA", 32*1024, 40) || !r.deliverN("cpB", 32*1024, 36) || !r.deliver("cpA") {
+			return fail("no forwarding")
+		}
+		r.src.injectEOF()
+	}
+	return r.finish()
+}
+
 func driveBridge(beh behaviour, seed int64) *fw.Trace {
+	if beh.Op != "" {
+		return driveBridgeScript(beh, seed)
+	}
 	if beh.Free {
 		return driveBridgeFree(beh, seed)
 	}
@@ -198,6 +316,24 @@ func driveBridge(beh behaviour, seed int64) *fw.Trace {
 			if !r.deliver(st.P) {
 				return r.unreal(i, "%s did not move the chunk", st.P)
 			}
+		case "DataBig": // more than the 1 MiB batch threshold, alternately in small and in large chunks
+			bigAlt++
+			size, count := 1000, 1150
+			if bigAlt%2 == 0 {
+				size, count = 32*1024, 36
+			}
+			if !r.deliverN(st.P, size, count) {
+				return r.unreal(i, "%s did not move the data", st.P)
+			}
+		case "CtxExit":
+			// the parent context is cancelled and data keeps flowing: small chunks until the copier has
+			// left its loop at the periodic ctx.Done() check. What it does then (flush, closeOnce, Close,
+			// clean-up report) has no gate for a goroutine the scheduler has never seen: the rest of
+			// the behaviour runs free.
+			if !r.flowUntilExit(st.P) {
+				return r.unreal(i, "%s did not leave its loop after the cancellation", st.P)
+			}
+			return r.finish()
 		case "Eof":
 			if st.P == "cpA" {
 				r.src.injectEOF()
